@@ -12,7 +12,7 @@ import (
 )
 
 func init() {
-	register("C06", "Decides structural conditions of gateway transparency in package federation: mergeSameAlias merges the sub-selections and fragments of same-alias selections without any name/alias-keyed de-duplication (identity only) and copies a group's selection set before its first append, resetting the copied-flag whenever a new alias group starts; runOnService sends one key object per parent in the parents' order and returns the service's answer list unchanged; planObject keeps a selection local exactly when the selected service is the current one and otherwise routes it to that service's sub-plan, selectService only returns a service that serves the field, and the _federation key selection is added whenever another service is involved; extractKeys collects results and keys in lock step, execute stitches result i into target i (induction index, behind the length-equality test) and never overwrites an existing key; one planner snapshot per request (getPlanner only in Execute); Syncer.planner and Executor.Executors are accessed only under plannerMu; only keys federated for the target service are sent to it; a null on the way to a hop is tolerated uniformly (leaf step like inner steps). Directive handling is C19, fragment-walk complexity C15. extractKeys' step table (field step / type step / list / unknown kind, descent with the rest of the path, error propagation) is evaluated under every assignment of its predicates; Not decided: equality with a monolith for all partitions and data, behaviour of remote services, the arbitrary choice among equal candidate services.", c06)
+	register("C06", "Decides structural conditions of gateway transparency in package federation: mergeSameAlias merges the sub-selections and fragments of same-alias selections without any name/alias-keyed de-duplication (identity only) and copies a group's selection set before its first append, resetting the copied-flag whenever a new alias group starts; runOnService sends one key object per parent in the parents' order and returns the service's answer list unchanged; planObject keeps a selection local exactly when the selected service is the current one and otherwise routes it to that service's sub-plan, selectService only returns a service that serves the field, and the _federation key selection is added whenever another service is involved; extractKeys collects results and keys in lock step, execute stitches result i into target i (induction index, behind the length-equality test) and never overwrites an existing key; one planner snapshot per request (getPlanner only in Execute); Syncer.planner and Executor.Executors are accessed only under plannerMu; only keys federated for the target service are sent to it; a null on the way to a hop is tolerated uniformly (leaf step like inner steps). Directive handling is C19, fragment-walk complexity C15. extractKeys' step table (field step / type step / list / unknown kind, descent with the rest of the path, error propagation) is evaluated under every assignment of its predicates;; planUnion selects __typename unconditionally (its sub-plans' type steps are resolved from it by extractKeys). Not decided: equality with a monolith for all partitions and data, behaviour of remote services, the arbitrary choice among equal candidate services.", c06)
 }
 
 const fed = "federation"
